@@ -90,18 +90,54 @@ def run_cmd(cmd, cwd=None, timeout=3600, input=None):
 
 
 def translate_constants():
-    """Regenerate lean/IblVerif/Generated/Constants.lean from /repo's current source."""
+    """Regenerate lean/IblVerif/Generated/Constants.lean from /repo's current source.
+    Returns (ok, message, table, stale): `stale` maps each constant that could not be re-extracted (source restructured)
+    to the reason; its previous value is kept (see extract_consts.py)."""
     import extract_consts
-    try:
-        text, table = extract_consts.generate(SRC)
-    except Exception as e:  # translator could not locate a constant: broken tie
-        return False, f'translator failed: {type(e).__name__}: {e}', {}
     out = LEAN / 'IblVerif' / 'Generated' / 'Constants.lean'
+    try:
+        prev = out.read_text() if out.exists() else None
+        text, table, stale = extract_consts.generate(SRC, prev)
+    except Exception as e:  # nothing to fall back on: broken tie
+        return False, f'translator failed: {type(e).__name__}: {e}', {}, {}
     with LakeLock():
         if not out.exists() or out.read_text() != text:
             out.parent.mkdir(parents=True, exist_ok=True)
             out.write_text(text)
-    return True, '', table
+    return True, '', table, stale
+
+
+def lean_import_closure(targets):
+    """files of this project reachable from the given modules through `import IblVerif.…` lines"""
+    seen, todo = {}, list(targets)
+    while todo:
+        m = todo.pop()
+        if m in seen or not m.startswith('IblVerif'):
+            continue
+        f = LEAN / (m.replace('.', '/') + '.lean')
+        if not f.exists():
+            continue
+        txt = f.read_text()
+        seen[m] = txt
+        todo += re.findall(r'^import\s+(IblVerif[\w.]*)', txt, flags=re.M)
+    return seen
+
+
+def constants_used(mod, names):
+    """which generated constants this property's theorems, driver or harness module mention"""
+    skip = 'IblVerif.Generated.Constants'
+    texts = [t for m, t in lean_import_closure(mod.LEAN_TARGETS).items() if m != skip]
+    drv = LEAN / 'Drivers' / f'{mod.DRIVER}.lean' if getattr(mod, 'DRIVER', None) else None
+    if drv and drv.exists():
+        t = drv.read_text()
+        texts.append(t)
+        texts += [x for m, x in lean_import_closure(re.findall(r'^import\s+(IblVerif[\w.]*)', t, flags=re.M)).items() if m != skip]
+    try:
+        texts.append(Path(mod.__file__).read_text())
+    except Exception:
+        pass
+    blob = '\n'.join(texts)
+    return sorted(n for n in names if re.search(r'\b' + re.escape(n) + r'\b', blob))
 
 
 def lake_build(targets):
@@ -327,10 +363,17 @@ def run_property(pid, tier, replay_path=None):
     discharged = 0
     try:
         # 1. translator
-        ok, msg, table = translate_constants()
+        ok, msg, table, stale = translate_constants()
         ctx.consts = table
         if not ok:
             reasons.append({'kind': 'translator', 'detail': msg})
+        mine = constants_used(mod, list(stale)) if stale else []
+        for k in mine:
+            # a restructured source is not a violation: the value of the previous generation is kept, the model computes
+            # with it and the correspondence run below compares it with what the code does now (DESIGN §11.7)
+            ctx.note(f'constant {k} not re-extracted from the source ({stale[k]}); previous value {table.get(k)} kept, '
+                     f'tie for it is the correspondence run')
+        ctx.stale_constants = mine
         # 2. build
         ok, errs, log = lake_build(mod.LEAN_TARGETS)
         if not ok:
@@ -429,6 +472,7 @@ def run_property(pid, tier, replay_path=None):
         'disagreements_checked': ctx.evaluations,
         'disagreements_found': len(ctx.mismatches),
         'generated_constants': jsonable(ctx.consts),
+        'constants_not_reextracted': list(getattr(ctx, 'stale_constants', [])),
         'known_findings_reported': kf_lines,
         'notes': ctx.notes,
         'exhaustive': bool(ctx.exhaustive),
